@@ -163,6 +163,10 @@ class Package:
         # variants on a boolean `inplace` parameter
         if 'inplace' in fi.params:
             fi.variants = [('inplace', True), ('inplace', False)]
+        elif name == '__new__' and len(fi.params) > 1 and isinstance(fi.defaults.get(fi.params[1]), ast.Constant) \
+                and fi.defaults[fi.params[1]].value is None:
+            # constructors of the ndarray subclasses: `if q is None:` selects the keyword-driven (possibly random) paths
+            fi.variants = [(fi.params[1], 'None'), (fi.params[1], 'given')]
         else:
             fi.variants = [None]
         if cls is not None and kind in ('method', 'property') and fi.params:
@@ -372,7 +376,7 @@ class FX:
             base = ann.replace('Optional[', '').rstrip(']')
             if p == self.me:
                 v = Val(frozenset([p]), 'arr' if self.cinfo.is_array else 'obj', None, f.cls)
-            elif base in TB.SCALAR_ANN or (variant and p == variant[0]):
+            elif base in TB.SCALAR_ANN or (variant and p == variant[0] and variant[1] in (True, False, 'None')):
                 v = Val(frozenset(), 'scalar', 0)
             elif any((q, p) in TB.RANK1 for q in (f.qual,)):
                 v = Val(frozenset([p]), 'arr', 1)
@@ -497,6 +501,15 @@ class FX:
         if self.variant is None:
             return None
         n, val = self.variant
+        if val in ('None', 'given'):
+            if isinstance(test, ast.Compare) and isinstance(test.left, ast.Name) and test.left.id == n and len(test.ops) == 1 \
+                    and isinstance(test.comparators[0], ast.Constant) and test.comparators[0].value is None \
+                    and n not in self._assigned:
+                if isinstance(test.ops[0], ast.Is):
+                    return val == 'None'
+                if isinstance(test.ops[0], ast.IsNot):
+                    return val != 'None'
+            return None
         if isinstance(test, ast.Name) and test.id == n:
             return bool(val)
         if isinstance(test, ast.UnaryOp) and isinstance(test.op, ast.Not) and isinstance(test.operand, ast.Name) and test.operand.id == n:
@@ -1151,7 +1164,7 @@ class FX:
         skv = [self.ev(v) if isinstance(v, ast.AST) else v for v in star_kw]
         kind = 'arr' if c.is_array else 'obj'
         if new is not None:
-            r0 = self.call_pkg([new], [Val(frozenset(), 'cls', None, cq)] + argv, kwv, star_kw=skv)
+            r0 = self.call_pkg([new], [Val(frozenset(), 'cls', None, cq)] + argv, kwv, star_kw=skv, nodes=(args, kws))
         else:
             r0 = Val(frozenset(), kind)
         if init is not None:
@@ -1164,7 +1177,7 @@ class FX:
             return Val(frozenset([t]) | r1.al, kind, None, cq)
         return Val(r0.al, kind, None, cq)
 
-    def call_pkg(self, cands, args, kws, receiver=None, star_kw=(), receiver_var=None):
+    def call_pkg(self, cands, args, kws, receiver=None, star_kw=(), receiver_var=None, nodes=None):
         """emit r := call f(...) for each candidate callee (non-deterministic choice between them)"""
         argv = [self.ev(a) if isinstance(a, ast.AST) else a for a in args]
         star = [v for a, v in zip(args, argv) if isinstance(a, ast.Starred)]
@@ -1180,10 +1193,29 @@ class FX:
             variants = m.variants
             if variants != [None]:
                 vn = variants[0][0]
-                if vn in kconst:
+                isnone = variants[0][1] in ('None', 'given')
+                given = vn in kwv or m.params.index(vn) < len(posv)
+                if isnone:
+                    if given:
+                        src_args, src_kws = nodes if nodes is not None else (args, kws)
+                        off = len(args) - len(src_args)          # constructors prepend the class / instance
+                        anode = src_kws.get(vn) if vn in kwv else [a for a in src_args if not isinstance(a, ast.Starred)][m.params.index(vn) - off]
+                        if isinstance(anode, ast.Constant) and anode.value is None:
+                            variants = [(vn, 'None')]
+                        elif isinstance(anode, ast.AST) and not isinstance(anode, ast.Name):
+                            variants = [(vn, 'given')]
+                        elif isinstance(anode, ast.Name):
+                            i = self.info.get(anode.id)
+                            dflt = self.f.defaults.get(anode.id)
+                            maybe_none = (anode.id in self.f.params and isinstance(dflt, ast.Constant) and dflt.value is None
+                                          and anode.id not in self._assigned) or (i is not None and i.kind == 'scalar')
+                            if not maybe_none:
+                                variants = [(vn, 'given')]
+                    elif not star:
+                        variants = [(vn, 'None')]
+                elif vn in kconst:
                     variants = [(vn, bool(kconst[vn]))]
-                elif vn not in kwv and m.params.index(vn) >= len(posv) and vn in m.defaults and isinstance(m.defaults[vn], ast.Constant) \
-                        and not (star or skv):
+                elif not given and vn in m.defaults and isinstance(m.defaults[vn], ast.Constant) and not (star or skv):
                     variants = [(vn, bool(m.defaults[vn].value))]
             for var in variants:
                 callee = self.pkg.variant_name(m, var)
